@@ -481,7 +481,9 @@ Section Reader.
         | l' => bind (read_next fuel l') (fun '(v, r) => read_all n' fuel r (acc ++ [v]))
         end
     end.
-  Definition read_text (s : str) : rres (list value) := read_all (S (length s)) (S (length s)) s [].
+  (** fuel: one unit per nesting level of the recursive-descent reader; [4 * length + 4]
+      is more than any text can use (ProofsMain.roundtrip shows it suffices for printed text) *)
+  Definition read_text (s : str) : rres (list value) := read_all (S (length s)) (4 * length s + 4) s [].
 End Reader.
 
 (** ** Which re-read values print differently under *print-meta* (F-03k): the reader attaches
